@@ -275,3 +275,83 @@ Theorem w_completion : forall ct jparse fparse pieces,
      wloop f cs w (w_input st) [] 0 = wloop (wfuel (w_input st)) cs w (w_input st) [] 0).
 Proof. exact w_completion_proof. Qed.
 Print Assumptions w_completion.
+
+(* ---------- WSGI with failing reads (ReadFault.v) ---------- *)
+From Baize Require Import C10.ReadFault C10.ReadFaultProofs.
+
+(* wsgi.input.read() may raise (an OSError such as a socket timeout: the WSGI
+   counterpart of a disconnect) at any call, once or for good: the input is a
+   script [list (option bytes)], [None] = this call raises, the script goes on
+   after it.  An access that RETURNS a body-derived value returns the value derived
+   from the concatenation of ALL pieces of the script, never a proper part of it —
+   and then the script had no failing read at all.  k items of stream() are a
+   prefix of the whole body. *)
+Theorem readfault_never_truncated : forall ct jparse fparse inp,
+  no_empty inp = true -> forall acs,
+  let st := fst (fexec ct jparse fparse acs (finit inp)) in
+  let full := concat (pieces inp) in
+  (forall v, snd (fstep ct jparse fparse st WBody) = FVal v ->
+     v = VBytes full /\ has_fault inp = false) /\
+  (forall cs v, (0 < cs)%N -> snd (fstep ct jparse fparse st (WStream None cs)) = FVal v ->
+     exists items, v = VChunks items /\ concat items = full /\ has_fault inp = false) /\
+  (forall v, snd (fstep ct jparse fparse st WJson) = FVal v ->
+     exists r c, jparse full = POk r c /\ v = VParsed r c /\ has_fault inp = false) /\
+  (forall v, snd (fstep ct jparse fparse st WForm) = FVal v ->
+     exists r c, fparse full = POk r c /\ v = VParsed r c /\ has_fault inp = false) /\
+  (forall k cs v, snd (fstep ct jparse fparse st (WStream (Some k) cs)) = FVal v ->
+     exists items rest, v = VChunks items /\ concat items ++ rest = full).
+Proof. exact readfault_never_truncated_proof. Qed.
+Print Assumptions readfault_never_truncated.
+
+(* An access fails in a read only when the script has a failing read.  After an
+   access failed in a read: _stream_consumed is set (it is set before the
+   first read and never reset), nothing is cached (cached_property stores on return
+   only), no later access changes the state — the input is never read again, so the
+   read error cannot occur a second time — and every later access that needs the
+   body (body, json / form under their content type, stream() actually started)
+   raises the documented RuntimeError("Stream consumed"). *)
+Theorem readfault_error_then_consumed : forall ct jparse fparse inp,
+  no_empty inp = true -> forall acs1 a acs2,
+  let st1 := fst (fexec ct jparse fparse acs1 (finit inp)) in
+  snd (fstep ct jparse fparse st1 a) = FReadErr ->
+  let st2 := fst (fstep ct jparse fparse st1 a) in
+  let st3 := fst (fexec ct jparse fparse acs2 st2) in
+  has_fault inp = true /\
+  f_consumed st2 = true /\ f_body st2 = None /\ f_json st2 = None /\ f_form st2 = None /\
+  st3 = st2 /\
+  forall a',
+    fst (fstep ct jparse fparse st3 a') = st3 /\
+    (freads ct a' -> snd (fstep ct jparse fparse st3 a') = FExn EConsumed) /\
+    snd (fstep ct jparse fparse st3 a') <> FReadErr.
+Proof. exact readfault_error_then_consumed_proof. Qed.
+Print Assumptions readfault_error_then_consumed.
+
+(* No piece is handed out twice: what the successful reads returned plus what is
+   left of the script is the script (failing reads apart); nothing is read before
+   the input is taken, and once it is taken — by ONE access, the one that set
+   _stream_consumed — no access reads again: all bytes read reached that access. *)
+Theorem readfault_reads_once : forall ct jparse fparse inp,
+  no_empty inp = true -> forall acs,
+  let st := fst (fexec ct jparse fparse acs (finit inp)) in
+  concat (f_got st) ++ concat (pieces (f_input st)) = concat (pieces inp) /\
+  (f_consumed st = false -> f_got st = [] /\ f_reads st = [] /\ f_input st = inp) /\
+  (f_consumed st = true -> forall a,
+     let st1 := fst (fstep ct jparse fparse st a) in
+     f_got st1 = f_got st /\ f_reads st1 = f_reads st /\ f_input st1 = f_input st /\ f_consumed st1 = true).
+Proof. exact readfault_reads_once_proof. Qed.
+Print Assumptions readfault_reads_once.
+
+(* The hypotheses are satisfiable: a read that fails once in the middle (the next
+   read would deliver the rest), then more accesses. *)
+Example readfault_example :
+  let inp := [Some [1; 2]%N; None; Some [3]%N] in
+  let p := fun _ : bytes => POk [] false in
+  no_empty inp = true /\
+  snd (fexec CJson p p [WBody; WBody; WStream None 2; WJson; WForm; WClose] (finit inp)) =
+    [FReadErr; FExn EConsumed; FExn EConsumed; FExn EConsumed; FExn EUnsupported; FVal VNone] /\
+  f_input (fst (fexec CJson p p [WBody; WBody; WStream None 2; WJson] (finit inp))) = [Some [3]%N] /\
+  snd (fexec CJson p p [WStream (Some 2) 1; WBody] (finit inp)) =
+    [FVal (VChunks [[1]%N; [2]%N]); FExn EConsumed] /\
+  snd (fexec CJson p p [WStream (Some 3) 1; WStream None 1] (finit inp)) = [FReadErr; FExn EConsumed].
+Proof. vm_compute. repeat split. Qed.
+Print Assumptions readfault_example.
